@@ -1,16 +1,16 @@
 #!/bin/bash
-# selftest/verify_seed.sh <worktree> <property id> <variant n>
+# selftest/verify_seed.sh <worktree> <property id> <variant n> [name in /verif/seeded]
 # Confirms a sub-agent's seeded change independently: full suite passes with the patch,
 # demo fails with it and passes without it. Copies the artefacts to /verif/seeded/<id>-v<n>/.
 export GOFLAGS=-mod=mod GOPROXY=off GOSUMDB=off GOTOOLCHAIN=local
-wt="$1"; id="$2"; n="$3"
+wt="$1"; id="$2"; n="$3"; name="${4:-$id-v$n}"
 src="$wt/seed_out/variant_$n"
-out="/verif/seeded/$id-v$n"
+out="/verif/seeded/$name"
 cd "$wt" || exit 3
 git checkout -q -- . ; rm -rf seeddemo
 [ -d seed_out ] && mv seed_out _seed_out
 src="$wt/_seed_out/variant_$n"
-res() { echo "$id-v$n: $*"; }
+res() { echo "$name: $*"; }
 git apply "$src/patch.diff" || { res "PATCH DOES NOT APPLY"; mv _seed_out seed_out; exit 1; }
 suite=pass
 go build ./... >/dev/null 2>&1 || suite=buildfail
